@@ -33,6 +33,7 @@ type FuncV struct {
 	RecvT types.Type
 	Pkg  *packages.Package // package whose TypesInfo covers Lit
 	Owner *Frame
+	ID   string // function literals of the function under contract: the term that stands for this closure value when it is stored
 }
 
 type ChoiceV struct {
@@ -921,7 +922,12 @@ func (e *Exec) asInt(v Val) string {
 			return mkIte(x.T, "1", "0")
 		}
 		return x.T
-	case FuncV, ChoiceV:
+	case FuncV:
+		if x.ID != "" {
+			return x.ID
+		}
+		return e.fresh("fn", SInt)
+	case ChoiceV:
 		// function values stored somewhere: opaque non-nil reference
 		return e.fresh("fn", SInt)
 	case SliceV:
@@ -1414,5 +1420,6 @@ func isTimeType(t types.Type) bool {
 func isEventKey(s string) bool {
 	return strings.HasPrefix(s, "called:") || strings.HasPrefix(s, "ncalls:") || strings.HasPrefix(s, "ret:") || strings.HasPrefix(s, "arg:") ||
 		strings.HasPrefix(s, "sent:") || strings.HasPrefix(s, "closed:") || strings.HasPrefix(s, "recvd:") ||
-		strings.HasPrefix(s, "recvval:") || strings.HasPrefix(s, "sentval:") || strings.HasPrefix(s, "spawned:")
+		strings.HasPrefix(s, "recvval:") || strings.HasPrefix(s, "sentval:") || strings.HasPrefix(s, "spawned:") ||
+		strings.HasPrefix(s, "closureval:")
 }
